@@ -1,6 +1,6 @@
 PROPERTY = {
     'id': 'C18',
-    'extra': ['bounded.c08_lines.run', 'bounded.c01_chunks.run'],
+    'extra': ['bounded.c08_lines.run', 'bounded.c01_chunks.run', 'bounded.c18_roundtrip.run'],
     'contract_modules': ['doctest_example', 'doctest_part', 'parser'],
     'functions': ['xdoctest.doctest_part:DoctestPart.format_part', 'xdoctest.utils.util_str:indent',
                   'xdoctest.utils.util_str:add_line_numbers', 'xdoctest.utils.util_str:highlight_code',
@@ -13,7 +13,8 @@ PROPERTY = {
               'every source and want line once, nothing added, dropped, trimmed or reordered (loop invariant over the want lines)',
               'the line offsets the numbered display adds to (part.line_offset) are the true indices of the parts: _package_groups offset invariant',
               '_package_chunk: the parts are forward slices of the chunk that partition it (shared with C01): the statement before the want is only split off when that leaves a non-empty part before it'],
-        'B': ['the real chunk packaging on all short statement sequences: partition, no empty part (a spurious blank line in the display), offsets (bounded/c01_chunks.py)',
+        'B': ['generated doctests (PS1/PS2 continuations, bare ... terminators, multi-line wants, trailing blanks, directives, decorators): format_src shows every source and want line once in order; re-parsing the displayed text gives the same executable lines, wants and compile modes; with line numbers every numbered line carries its position, doctest-relative and file-relative, wants on and off (bounded/c18_roundtrip.py)',
+              'the real chunk packaging on all short statement sequences: partition, no empty part (a spurious blank line in the display), offsets (bounded/c01_chunks.py)',
               'the real freeform / google parsers on random docstrings: every (doctest line + part offset) points at the docstring line that holds the first source line of that part, and failed_lineno() at the statement that raised (bounded/c08_lines.py)'],
         'T': ["law of the builtins: '\\n'.join(xs).splitlines() == xs for plain lines (no embedded line boundary, last line not empty); "
               "join distributes over list concatenation"],
